@@ -31,10 +31,11 @@ func faRead(data []byte) (items []faRec, gotErr bool, panicked bool) {
 	items = []faRec{}
 	var kept []*fasta.Fasta // records are projected after the iteration: a delivered record must stay what it was
 	panicked, _ = catch(func() {
-		if failedReadsFirst {
-			for _, t := range malformedTexts["fasta"] {
-				for range fasta.Reader(strings.NewReader(t)) {
-				}
+		if failedReadsFirst { // (one malformed text before each recorded read, in turn: a pool hands back what was put last)
+			ts := malformedTexts["fasta"]
+			t := ts[malformedNext%len(ts)]
+			malformedNext++
+			for range fasta.Reader(strings.NewReader(t)) {
 			}
 		}
 		seq := fasta.Reader(deliver(data))
